@@ -15,6 +15,7 @@ import (
 
 	"github.com/arloliu/go-secs/v2/hsms"
 	"github.com/arloliu/go-secs/v2/secs2"
+	"github.com/arloliu/go-secs/v2/sml"
 
 	"verifharness/vh"
 )
@@ -439,6 +440,12 @@ func corpusIntegers() {
 					if !validIntW(w) && t != tInt {
 						continue
 					}
+					// two scalars: the slow path (combine*Values) for this Go type
+					e3 := numExpr(kind, w, mkScalar(t, z), mkScalar(t, z))
+					it3, ok3 := emitConstruct(e3)
+					if ok3 {
+						checkIntegers(kind, w, []*big.Int{z, z}, it3, "C "+e3.syntax())
+					}
 					zs := []*big.Int{z, big.NewInt(0), z}
 					e2 := numExpr(kind, w, mkSlice(t, zs))
 					it2, ok2 := emitConstruct(e2)
@@ -595,6 +602,179 @@ func checkFloat(e *expr, w int) {
 		if math.IsNaN(exp) != math.IsNaN(got[i]) || (!math.IsNaN(exp) && math.Float64bits(exp) != math.Float64bits(got[i])) {
 			c.Fail(fmt.Sprintf("float value[%d]=%x, want %x (nearest bound / identity)", i, math.Float64bits(got[i]), math.Float64bits(exp)), line)
 			return
+		}
+	}
+}
+
+// corpusNarrow: Equal on F4 items compares the float32-narrowed values; the model computes the
+// narrowing (round to nearest even, overflow, gradual underflow, NaN) on bit patterns.
+func corpusNarrow() {
+	emitQ := func(a, b *expr) {
+		ra, rb := a.build(), b.build()
+		if ra.panicked || rb.panicked {
+			c.Fail("constructor panicked", "Q "+a.syntax()+" ; "+b.syntax())
+			return
+		}
+		emitEqual(a, b, ra.item, rb.item)
+	}
+	for _, w := range []int{4, 8} {
+		for i, b := range f64Corpus {
+			x := f64(b)
+			emitQ(numExpr('F', w, x), numExpr('F', w, float32(x)))
+			emitQ(numExpr('F', w, x), numExpr('F', w, f64(b^1)))
+			emitQ(numExpr('F', w, x), numExpr('F', w, f64(f64Corpus[(i+1)%len(f64Corpus)])))
+			emitQ(numExpr('F', w, []float64{1, x}), numExpr('F', w, []float32{1, float32(x)}))
+		}
+		for k := 0; k < 400; k++ {
+			var bits uint64
+			switch c.Rng.Intn(3) {
+			case 0:
+				bits = c.Rng.Uint64()
+			case 1: // around the float32 exponent range, low mantissa bits random (rounding cases)
+				bits = uint64(0x380+c.Rng.Intn(0x100))<<52 | uint64(c.Rng.Int63())&0xfffffffffffff
+				if c.Rng.Intn(2) == 0 {
+					bits |= 1 << 63
+				}
+			default: // ties: exactly half an ulp of float32, with and without sticky bits
+				bits = uint64(0x360+c.Rng.Intn(0x120))<<52 | uint64(c.Rng.Intn(1<<23))<<29 | 1<<28
+				if c.Rng.Intn(2) == 0 {
+					bits |= uint64(c.Rng.Intn(4))
+				}
+			}
+			x := f64(bits)
+			emitQ(numExpr('F', w, x), numExpr('F', w, float32(x)))
+			emitQ(numExpr('F', w, x), numExpr('F', w, f64(bits+1)))
+		}
+		c.Count(fmt.Sprintf("narrow/w=%d", w))
+	}
+}
+
+// corpusSizeLimit: the MaxByteSize cap (oracle only: the argument lists are too long for case lines).
+func corpusSizeLimit() {
+	type mk struct {
+		name string
+		f    func(n int) secs2.Item
+		per  int
+	}
+	for _, m := range []mk{
+		{"I1", func(n int) secs2.Item { return secs2.I1(make([]int8, n)) }, 1},
+		{"I8", func(n int) secs2.Item { return secs2.I8(make([]int64, n)) }, 8},
+		{"U2", func(n int) secs2.Item { return secs2.U2(make([]uint16, n)) }, 2},
+		{"U4", func(n int) secs2.Item { return secs2.NewUintItem(4, make([]int, n/2), make([]uint32, n-n/2)) }, 4},
+		{"F4", func(n int) secs2.Item { return secs2.F4(make([]float32, n)) }, 4},
+		{"F8", func(n int) secs2.Item { return secs2.F8(make([]float64, n)) }, 8},
+		{"B", func(n int) secs2.Item { return secs2.B(make([]byte, n)) }, 1},
+		{"BOOLEAN", func(n int) secs2.Item { return secs2.BOOLEAN(make([]bool, n)) }, 1},
+		{"A", func(n int) secs2.Item { return secs2.A(strings.Repeat("a", n)) }, 1},
+		{"J", func(n int) secs2.Item { return secs2.J(strings.Repeat("a", n)) }, 1},
+		{"W", func(n int) secs2.Item { return secs2.W(strings.Repeat("a", n-2)) }, 1},
+	} {
+		lim := secs2.MaxByteSize / m.per
+		for _, n := range []int{lim, lim + 1} {
+			var it secs2.Item
+			func() {
+				defer func() {
+					if r := recover(); r != nil {
+						c.Fail(fmt.Sprintf("constructor panicked at the size cap: %v", r), fmt.Sprintf("Z %s %d", m.name, n))
+					}
+				}()
+				it = m.f(n)
+			}()
+			if it == nil {
+				continue
+			}
+			over := n*m.per > secs2.MaxByteSize
+			if over != (it.Error() != nil) {
+				c.Fail(fmt.Sprintf("size cap: %d elements of %d bytes, Error()!=nil is %v", n, m.per, it.Error() != nil), fmt.Sprintf("Z %s %d", m.name, n))
+			}
+			if over {
+				if _, err := hsms.NewDataMessage(1, 1, false, 0, [4]byte{}, secs2.L(it)); err == nil {
+					c.Fail("oversize item accepted by NewDataMessage inside a list", fmt.Sprintf("Z %s %d", m.name, n))
+				}
+			}
+			c.Count("sizecap/" + m.name)
+		}
+	}
+}
+
+// corpusBigCount (thorough tier, -big): 2^31 booleans. The element count is stored in an int32.
+func corpusBigCount() {
+	n := 1 << 31
+	var it secs2.Item
+	func() {
+		defer func() {
+			if r := recover(); r != nil {
+				c.Fail(fmt.Sprintf("constructor panicked: %v", r), fmt.Sprintf("Z BOOLEAN %d", n))
+			}
+		}()
+		it = secs2.NewBooleanItem(make([]bool, n))
+	}()
+	if it == nil {
+		return
+	}
+	c.Count("bigcount")
+	if it.Error() == nil {
+		c.Fail(fmt.Sprintf("item above MaxByteSize accepted: %d values, Error()==nil, Size()=%d (the element count wraps in its int32 field)", n, it.Size()),
+			fmt.Sprintf("Z BOOLEAN %d", n))
+	}
+}
+
+// corpusSML: numeric construction from SML text goes through the same constructors; out-of-range
+// text is refused by the parser (never wrapped), in-range text yields the numbers.
+func corpusSML() {
+	for _, kind := range []string{"I", "U"} {
+		for _, w := range []int{1, 2, 4, 8} {
+			for _, z := range boundaries {
+				text := fmt.Sprintf("S1F1\n<%s%d %s 7>\n.", kind, w, z.String())
+				var msg *hsms.DataMessage
+				var err error
+				func() {
+					defer func() {
+						if r := recover(); r != nil {
+							c.Fail(fmt.Sprintf("sml.Parse panicked: %v", r), "P "+text)
+						}
+					}()
+					var msgs []*hsms.DataMessage
+					msgs, err = sml.Parse(text)
+					if err == nil && len(msgs) == 1 {
+						msg = msgs[0]
+					} else if err == nil {
+						err = fmt.Errorf("%d messages", len(msgs))
+					}
+				}()
+				var lo, hi *big.Int
+				if kind == "I" {
+					lo, hi = intBounds(w)
+				} else {
+					lo, hi = big.NewInt(0), new(big.Int).Sub(pow2(uint(8*w)), big.NewInt(1))
+				}
+				in := z.Cmp(lo) >= 0 && z.Cmp(hi) <= 0
+				c.Count("sml/" + kind)
+				if err != nil {
+					if in {
+						c.Fail("sml: in-range numeric text refused", "P "+text)
+					}
+					continue
+				}
+				if !in {
+					c.Fail("sml: out-of-range numeric text accepted", "P "+text)
+					continue
+				}
+				it, ierr := msg.Item()
+				if ierr != nil || it.Error() != nil {
+					c.Fail("sml: parsed item carries an error", "P "+text)
+					continue
+				}
+				var want secs2.Item
+				if kind == "I" {
+					want = secs2.NewIntItem(w, z.String(), 7)
+				} else {
+					want = secs2.NewUintItem(w, z.String(), 7)
+				}
+				if !secs2.Equal(it, want) {
+					c.Fail("sml: parsed numbers differ from the text", "P "+text)
+				}
+			}
 		}
 	}
 }
@@ -963,6 +1143,7 @@ func randomShapes(n int) {
 
 func main() {
 	noLive := flag.Bool("nolive", false, "skip the live-connection send checks")
+	big31 := flag.Bool("big", false, "also build a 2^31-element BooleanItem (needs ~5 GiB)")
 	c = vh.New()
 	initBoundaries()
 
@@ -970,11 +1151,17 @@ func main() {
 	corpusStrings()
 	corpusFloats()
 	corpusOthers()
+	corpusNarrow()
+	corpusSizeLimit()
+	corpusSML()
+	if *big31 {
+		corpusBigCount()
+	}
 	budget := c.N
 	randomTrees(budget / 2)
 	randomShapes(budget / 4)
 	if !*noLive {
-		liveSends(budget / 40)
+		liveSends(budget / 15)
 	}
 	c.Finish()
 }
